@@ -208,6 +208,10 @@ func TestMemoryAdaptive(t *testing.T) {
 		}
 		high := int64(rapid.IntRange(1, 50).Draw(t, "highThr"))
 		low := high + int64(rapid.IntRange(1, 50).Draw(t, "lowDelta"))
+		if rapid.IntRange(0, 3).Draw(t, "hugeThresholds") == 0 { // "unlimited"-style thresholds: the interpolation must not overflow
+			low = rapid.SampledFrom([]int64{1000000, math.MaxInt32, 1 << 40, math.MaxInt64 / 2, math.MaxInt64}).Draw(t, "lowHuge")
+			high = rapid.SampledFrom([]int64{1, 1000, 999999}).Draw(t, "highSmall")
+		}
 		lowMark := int64(rapid.Int64Range(1, total-2).Draw(t, "lowMark"))
 		if rapid.Bool().Draw(t, "smallMarks") {
 			lowMark = int64(rapid.IntRange(1, 1000).Draw(t, "lowMarkSmall"))
@@ -231,6 +235,9 @@ func TestMemoryAdaptive(t *testing.T) {
 		mems = append(mems, 0, lowMark-1, lowMark, lowMark+1, highMark-1, highMark, highMark+1, total)
 		for i := 0; i < 6; i++ {
 			mems = append(mems, rapid.Int64Range(lowMark, highMark).Draw(t, "mem"))
+		}
+		for i := int64(1); i < 8; i++ { // evenly spread readings: large offsets from the low mark
+			mems = append(mems, lowMark+(highMark-lowMark)/8*i)
 		}
 		between := false
 		prevMem, prevThr := int64(-1), math.Inf(1)
@@ -281,9 +288,16 @@ func TestMemoryAdaptive(t *testing.T) {
 			mem = 0
 		}
 		system_metric.SetSystemMemoryUsage(mem)
+		if thr := calc.CalculateAllowedTokens(1, 0); thr > 300 {
+			c.Class("huge-thresholds")
+			if between {
+				c.NonTrivial()
+			}
+			return // admitting that many requests one by one is pointless; the calculator clauses above cover it
+		}
 		want := int(math.Floor(calc.CalculateAllowedTokens(1, 0)))
 		got := 0
-		for i := 0; i < int(low)+5; i++ {
+		for i := 0; i < want+5; i++ {
 			if e, _ := sentinel.Entry("m"); e != nil {
 				got++
 				e.Exit()
